@@ -69,6 +69,10 @@ def enabled_ops(state):
             ops.append(('remove', e, m))
             for idx in range(len(lst)):
                 ops.append(('replace', e, m, idx))
+                ops.append(('replace', e, m, idx, 'result', True))
+                if e == 0:
+                    ops.append(('replace', e, m, idx, 'error', False))
+                    ops.append(('replace', e, m, idx, 'callback', True))
     return ops
 
 
@@ -107,8 +111,9 @@ def ref_apply(state, calls, op, n, passthrough):
         st.setdefault(e, {}).setdefault(m, []).append((n, pk, once))
         return st, cl, None
     if kind == 'replace':
-        _, e, m, idx = op
-        st[e][m][idx] = (n, 'result', False)
+        e, m, idx = op[1], op[2], op[3]
+        pk, once = (op[4], op[5]) if len(op) > 4 else ('result', False)
+        st[e][m][idx] = (n, pk, once)
         return st, cl, None
     if kind == 'remove':
         _, e, m = op
@@ -175,8 +180,10 @@ def real_apply(kind, mocker, cls, op, n):
         mocker.add(EPS[e], m, once=once, **kw)
         return None
     if k == 'replace':
-        _, e, m, idx = op
-        mocker.replace(EPS[e], m, result='r%d' % n, idx=idx)
+        e, m, idx = op[1], op[2], op[3]
+        pk, once = (op[4], op[5]) if len(op) > 4 else ('result', False)
+        kw = dict(result='r%d' % n) if pk == 'result' else (dict(error=JsonRpcError(1000 + n, 'e%d' % n)) if pk == 'error' else dict(callback=make_cb(n)))
+        mocker.replace(EPS[e], m, idx=idx, once=once, **kw)
         return None
     if k == 'remove':
         mocker.remove(EPS[op[1]], op[2])
